@@ -79,8 +79,12 @@ def stream_trace(tid, ops, lg, accel):
         g = npuhw.geometry(o["kind"], regs)
         rd, wr = [], []
         if c["ifm"] is not None:
-            for s in merge(fm_segments(regs, "IFM", c["ifm"], g["ih"], g["iw"], g["id"])):
-                rd.append(("ifm",) + s)
+            segs = fm_segments(regs, "IFM", c["ifm"], g["ih"], g["iw"], g["id"])
+            if c.get("tile_padding"):
+                segs = [s[:4] + (0,) for s in segs]       # edge replication through tiles: identity only
+                mech.add("tile_padding")
+            for s in merge(segs):
+                rd.append(("ifm" if not c.get("tile_padding") else "ifm~",) + s)
             if c["ifm"]["storage_shape"] and len(c["ifm"]["storage_shape"]) == 4 and c["ifm"]["storage_shape"][1] < c["ifm"]["shape"][1]:
                 mech.add("rolling_buffer")
         if o["kind"] == "ew" and o["param"] not in npuhw.EW_UNARY and c.get("ifm2") is not None:
@@ -142,17 +146,19 @@ def stream_trace(tid, ops, lg, accel):
                           "outdelta": p["outdelta"]})
         else:
             lines.append({"t": tid, "e": "Kernel", "i": p["i"],
-                          "rd": [{"w": s[0], "cells": cl(s[1], s[2], s[3]), "sid": s[4], "delta": s[5]} for s in p["rd"]],
+                          "rd": [{"w": s[0].rstrip("~"), "cells": cl(s[1], s[2], s[3]), "sid": s[4], "delta": s[5],
+                                 "sidonly": s[0].endswith("~")} for s in p["rd"]],
                           "wr": [{"cells": cl(s[1], s[2], s[3]), "sid": s[4], "delta": s[5]} for s in p["wr"]]})
     lines.append({"t": tid, "e": "Stop"})
     return lines, ncell, mech
 
 
 def jobs_for(tier, sd):
-    n = 50 if tier == "quick" else 1200
+    n = 70 if tier == "quick" else 1400
     jobs = corpus.all_singles(sd)
     # emphasis: cascades (U65 dedicated SRAM with small cache, Size), wide convs with small cache, LUT chains, branches
-    fams = ["chain", "chain", "wide", "lut", "branch", "mixed", "u8i16"]
+    fams = ["chain", "chain", "wide", "lut", "branch", "mixed", "u8i16", "inplace", "lutmany", "resize", "pruned", "diamonds",
+            "stride3", "widen"]
     jobs += corpus.draw(n, sd, families=fams, dedicated_bias=0.5)
     return jobs
 
@@ -207,6 +213,9 @@ def main(tier):
             j, s, lg = index[v[0]]
             cmd = lg["cmds"][v[2]] if v[2] < len(lg["cmds"]) else {}
             key = "%s|%s|%s|%s" % (v[1], v[3], cmd.get("op", cmd.get("type")), j["family"].split(":")[0])
+            f = cmd.get("ifm") if v[3] == "ifm" else None
+            if f and len(f.get("storage_shape", [])) == 4 and f["storage_shape"][1] < f["shape"][1]:
+                key += "|rolling|sy=%d" % cmd.get("kernel", {}).get("sy", 0)
             run.violation(key, "%s: %s read by operation %d (%s, %s) of %s with %s" % (
                 v[1], v[3], v[2], cmd.get("name"), cmd.get("op"), j["family"], j["opts"]),
                 {"net": j["net"], "opts": j["opts"], "violated": v[1:], "command": cmd})
